@@ -26,6 +26,9 @@ v = e ; `if c: v = e1 [else: v = e2]` ; return e      symbolic execution; a Pyth
 y = 0.0; for i in range(len(self.__t) - self.__k - 1): y += e; return y
                                                       C20.sumN (n - k - 1) (fun i => e)     (n = len(t))
 self.__w[e], self.__k                                 w (e), k
+reverse_call: `l_d, u_d = domain`                     ld, ud : Option Rat     (None = none)
+`if l_d is None: l_d = self.domain[0]` (resp. [1])    Option.getD ld dl  (resp. ud du); nothing else may
+                                                      assign the two names; they must be brentq's bracket
 docstrings, comments                                  ignored
 anything else                                         TranslationError -> obligation broken
 """
@@ -372,3 +375,110 @@ def gen_bspline(c):
             f.write(text)
         os.replace(tmp, path)
     return [("RtcVerif.Gen.BSplineBasis", "RtcVerif.Gen", thms)]
+
+
+# ---------------------------------------------------------------------------------------------
+# LookupTable.reverse_call: the search-domain fallback (`None` -> the table's own bound)
+
+
+def translate_reverse_domain():
+    path = os.path.join(REPO, "src", "rtctools", "optimization", "csv_lookup_table_mixin.py")
+    fn = _find_method(ast.parse(open(path).read()), "LookupTable", "reverse_call")
+    args = [a.arg for a in fn.args.args]
+    if args[:3] != ["self", "y", "domain"]:
+        raise TranslationError("unexpected signature of reverse_call")
+    dflt = fn.args.defaults[0] if len(fn.args.defaults) == len(args) - 2 else None
+    if not (isinstance(dflt, ast.Tuple) and len(dflt.elts) == 2
+            and all(isinstance(e, ast.Constant) and e.value is None for e in dflt.elts)):
+        raise TranslationError("default of `domain` is not (None, None)")
+    # the bracket handed to brentq
+    calls = [n for n in ast.walk(fn) if isinstance(n, ast.Call) and isinstance(n.func, ast.Name) and n.func.id == "brentq"]
+    if len(calls) != 1 or len(calls[0].args) != 3 or not all(isinstance(a, ast.Name) for a in calls[0].args[1:]):
+        raise TranslationError("brentq is not called once with two plain names as bracket")
+    lo_name, hi_name = calls[0].args[1].id, calls[0].args[2].id
+    env = {}
+    nassign = {lo_name: 0, hi_name: 0}
+    for n in ast.walk(fn):
+        targets = []
+        if isinstance(n, ast.Assign):
+            targets = n.targets
+        elif isinstance(n, (ast.AugAssign, ast.AnnAssign)):
+            targets = [n.target]
+        elif isinstance(n, (ast.For, ast.comprehension)):
+            targets = [n.target]
+        for t in targets:
+            for m in ast.walk(t):
+                if isinstance(m, ast.Name) and m.id in nassign:
+                    nassign[m.id] += 1
+    for st in fn.body:
+        if _is_doc(st):
+            continue
+        if isinstance(st, ast.Assign) and len(st.targets) == 1 and isinstance(st.targets[0], ast.Tuple):
+            tg = st.targets[0].elts
+            if len(tg) == 2 and all(isinstance(e, ast.Name) for e in tg) and {tg[0].id, tg[1].id} == {lo_name, hi_name}:
+                if not (isinstance(st.value, ast.Name) and st.value.id == "domain"):
+                    raise TranslationError("the bracket names are not unpacked from `domain`")
+                env[tg[0].id] = ("ld", "dl", 0, False)
+                env[tg[1].id] = ("ud", "du", 1, False)
+                continue
+        if isinstance(st, ast.If) and isinstance(st.test, ast.Compare) and isinstance(st.test.left, ast.Name) \
+                and st.test.left.id in env and len(st.test.ops) == 1:
+            name = st.test.left.id
+            opt, bound, idx, done = env[name]
+            cmp_ok = isinstance(st.test.ops[0], ast.Is) and isinstance(st.test.comparators[0], ast.Constant) \
+                and st.test.comparators[0].value is None
+            body_ok = (len(st.body) == 1 and not st.orelse and isinstance(st.body[0], ast.Assign)
+                       and len(st.body[0].targets) == 1 and isinstance(st.body[0].targets[0], ast.Name)
+                       and st.body[0].targets[0].id == name)
+            if body_ok:
+                v = st.body[0].value
+                body_ok = (isinstance(v, ast.Subscript) and isinstance(v.value, ast.Attribute) and v.value.attr == "domain"
+                           and isinstance(v.value.value, ast.Name) and v.value.value.id == "self"
+                           and isinstance(v.slice, ast.Constant) and v.slice.value == idx)
+            if not (cmp_ok and body_ok) or done:
+                raise TranslationError("unsupported fallback for " + name)
+            env[name] = (opt, bound, idx, True)
+            continue
+    if set(env) != {lo_name, hi_name} or nassign[lo_name] != 2 or nassign[hi_name] != 2:
+        raise TranslationError("the bracket names are assigned other than by `l, u = domain` and the `is None` fallback")
+    if env[lo_name][0] != "ld" or env[hi_name][0] != "ud":
+        raise TranslationError("lower / upper bound swapped")
+    if not (env[lo_name][3] and env[hi_name][3]):
+        raise TranslationError("a bound has no `is None` fallback to the table's domain")
+    return "Option.getD ld dl", "Option.getD ud du"
+
+
+REV_TEMPLATE = """import RtcVerif.Model.C20BSpline
+/-!
+GENERATED on every run of the C20 check by harness/translate_c20.py from the search-domain
+fallback of `LookupTable.reverse_call` (src/rtctools/optimization/csv_lookup_table_mixin.py).
+Do not edit.
+-/
+namespace RtcVerif.Gen
+open RtcVerif
+
+def revDomainGen (ld ud : Option Rat) (dl du : Rat) : Rat × Rat := (%s, %s)
+
+theorem revDomainGen_eq_model (c : C20.RevCfg) : revDomainGen c.ld c.ud c.dl c.du = (c.lo, c.hi) := rfl
+
+end RtcVerif.Gen
+"""
+
+
+def gen_reverse_domain(c):
+    gdir = os.path.join(LEAN_DIR, "RtcVerif", "Gen")
+    os.makedirs(gdir, exist_ok=True)
+    path = os.path.join(gdir, "ReverseDomain.lean")
+    try:
+        lo, hi = translate_reverse_domain()
+    except TranslationError as e:
+        c.broken.append(("translator: LookupTable.reverse_call domain fallback", str(e)))
+        return []
+    text = REV_TEMPLATE % (lo, hi)
+    old = open(path).read() if os.path.exists(path) else None
+    if old != text:
+        tmp = path + ".tmp%d" % os.getpid()
+        with open(tmp, "w") as f:
+            f.write(text)
+        os.replace(tmp, path)
+    return [("RtcVerif.Gen.ReverseDomain", "RtcVerif.Gen", ["revDomainGen_eq_model"])]
